@@ -59,6 +59,7 @@ type c13Session struct {
 	idxTaint bool
 	autoT    bool
 	dupSP    bool // a savepoint name was established twice in this tx
+	relKeep  bool // RELEASE SAVEPOINT of a savepoint that had later ones (the engine keeps the later ones: ReleaseSavepoint deletes one map entry)
 	delT     bool // a DELETE of this tx removed rows (Get still finds their keys: store RYOW defect)
 	unknown  bool // reference no longer tracks the engine for this tx (after a classified finding)
 	prog     []string
@@ -154,7 +155,7 @@ func (s *c13Session) reset() {
 	s.tx, s.inTx, s.snap, s.pend, s.sps = nil, false, nil, nil, nil
 	s.updated, s.lastPK, s.hasLast, s.wrote = 0, 0, false, false
 	s.k1, s.spGone, s.idxTaint, s.autoT, s.unknown, s.delT = false, false, false, false, false, false
-	s.prog, s.engUpd, s.dupSP = nil, 0, false
+	s.prog, s.engUpd, s.dupSP, s.relKeep = nil, 0, false, false
 }
 
 func (c *c13Case) touch(s *c13Session) {
@@ -334,7 +335,7 @@ func (c *c13Case) step(s *c13Session) {
 			pred := s.pend.clone().exec(d)
 			if pred.Err == "" && !pred.OrderDep && !s.unknown {
 				cz := s.cause()
-				if cz == "" && len(c.idxLive) > 0 && s.wrote {
+				if cz == "" && len(c.idxLive) > 0 && (s.wrote || c13WritesVacatedTuple(c, s, d)) {
 					cz = ":secondary-index-view-in-tx"
 				}
 				if strings.Contains(res.Err, "non-transient key to transient") {
@@ -445,8 +446,10 @@ func (c *c13Case) step(s *c13Session) {
 				cz := ""
 				if s.spGone {
 					cz = ":later-savepoints-survive-rollback-to"
+				} else if s.relKeep {
+					cz = ":later-savepoints-survive-release"
 				}
-				c.fail("C13:savepoint:rollback-to-unknown-savepoint-accepted"+cz, fmt.Sprintf("session %d: ROLLBACK TO SAVEPOINT %s succeeded but the reference has no such savepoint (an earlier ROLLBACK TO an older savepoint must have destroyed it)", s.id, name))
+				c.fail("C13:savepoint:rollback-to-unknown-savepoint-accepted"+cz, fmt.Sprintf("session %d: ROLLBACK TO SAVEPOINT %s succeeded but the reference has no such savepoint (an earlier ROLLBACK TO / RELEASE of an older savepoint must have destroyed it)", s.id, name))
 			}
 			s.unknown = true
 			return
@@ -492,6 +495,9 @@ func (c *c13Case) step(s *c13Session) {
 		}
 		s.tx = res.Tx
 		if at >= 0 {
+			if at < len(s.sps)-1 {
+				s.relKeep = true // textbook: the later savepoints are released with it; the engine keeps them
+			}
 			s.sps = s.sps[:at]
 		} else {
 			s.unknown = s.unknown || false
@@ -550,6 +556,47 @@ func (c *c13Case) step(s *c13Session) {
 		s.reset()
 		c.checkCommitted("after a session was closed with an open transaction", "C13:rollback:left-trace", "")
 	}
+}
+
+// R1 inside ONE statement (or across statements of the transaction): the statement writes, under key k, a tuple of a UNIQUE
+// index that a row with another key held at the transaction's snapshot and that the transaction (this very statement
+// included: a multi-row INSERT/UPSERT) has since changed or deleted. The old index entry is deprecated under a key without
+// the primary key (deprecateIndexEntries), so the uniqueness lookup still finds it: spurious `key already exists`.
+func c13WritesVacatedTuple(c *c13Case, s *c13Session, d *dml) bool {
+	if s.snap == nil || s.pend == nil || len(d.Rows) == 0 {
+		return false
+	}
+	after := s.pend.clone()
+	if o := after.exec(d); o.Err != "" {
+		return false
+	}
+	for _, ix := range c.idxLive {
+		if !ix.Unique {
+			continue
+		}
+		for _, row := range after.rows {
+			pk := after.pkOf(row)
+			if at := s.pend.find(pk); at >= 0 && sqlRowTok(s.pend.rows[at]) == sqlRowTok(row) {
+				continue // not written by this statement
+			}
+			for _, old := range s.snap.rows {
+				if sqlCmpTuple(s.snap.pkOf(old), pk) == 0 {
+					continue
+				}
+				same := true
+				for _, col := range ix.Cols {
+					if sqlCmpVal(old[col], row[col]) != 0 {
+						same = false
+						break
+					}
+				}
+				if same {
+					return true // valid on the view ⇒ the old holder no longer has the tuple there: vacated inside this transaction
+				}
+			}
+		}
+	}
+	return false
 }
 
 func c13K1Sig(cz string) string {
